@@ -14,7 +14,7 @@ import json
 from .. import model, observe, spec as specmod
 from ..kernel import call, exc_site
 from .c01 import tol_for
-from .pool import FACTORS_ODD, FACTORS_POS, PoolScenario
+from .pool import FACTORS_ODD, FACTORS_POS, PoolScenario, branch_shortcuts
 
 
 def scale_cover(cover, f):
@@ -237,6 +237,11 @@ class C08(PoolScenario):
                     w.record_step(st)
                     continue
                 self.must(o, "mul", si)
+                bad = branch_shortcuts(o.value)
+                if bad is not None:
+                    raise self.violation("Branch", "mul", "stale-shortcut:i%d" % bad[1],
+                                         "the scaled Branch's attribute i%d is not its member %d (entries %r vs %r)" % (
+                                             bad[1], bad[1], getattr(bad[0], "i%d" % bad[1]).entries, list(bad[0].values)[bad[1]].entries), si)
                 cov = m[src].get("cover")
                 m[st["out"]]["cover"] = None if cov is None else scale_cover(cov, f)
                 m[st["out"]]["scaled"] = True
